@@ -52,3 +52,32 @@ package vm
 //@ assumed
 //@ pure
 //@ ensures result == v.failed
+
+//@ prop C04
+//@ import stackitem github.com/nspcc-dev/neo-go/pkg/vm/stackitem
+
+// Whether the running contract has an open TRY: some context of the invocation stack, from
+// which up to the top every context runs the same script as the top one, keeps a handler in
+// the try state on its try stack. A call made while this holds must get a layer of its own.
+//@ spec ehc(e Element) *exceptionHandlingContext = e.value.(*stackitem.Interop).value.(*exceptionHandlingContext)
+//@ spec wfTry(c *Context) bool = c != nil && forall(j, 0, len(c.tryStack.elems), is(c.tryStack.elems[j].value, *stackitem.Interop) && c.tryStack.elems[j].value.(*stackitem.Interop) != nil && is(c.tryStack.elems[j].value.(*stackitem.Interop).value, *exceptionHandlingContext) && ehc(c.tryStack.elems[j]) != nil)
+//@ spec inTry(c *Context) bool = exists(j, 0, len(c.tryStack.elems), ehc(c.tryStack.elems[j]).State == eTry)
+//@ spec hasTry(v *VM) bool = exists(i, 0, len(v.istack), forall(k, i, len(v.istack), v.istack[k].sc == v.istack[len(v.istack)-1].sc) && inTry(v.istack[i]))
+
+//@ func (*Stack).Len
+//@ inline
+//@ func (*Stack).Peek
+//@ inline
+//@ func (Element).Value
+//@ inline
+
+//@ spec wfTryAll(v *VM) bool = v != nil && forall(i, 0, len(v.istack), wfTry(v.istack[i]))
+
+// No precondition: on an ill-formed try stack the function panics (failed type assertion),
+// on a well-formed one it answers hasTry.
+//@ func (*VM).ContractHasTryBlock
+//@ panics-if !wfTryAll(v)
+//@ ensures[open] wfTryAll(v) ==> result == hasTry(v)
+//@ loop 0 invariant[top] wfTryAll(v) ==> ($i == 0 ==> topctx == nil) && ($i > 0 ==> topctx == v.istack[len(v.istack)-1])
+//@ loop 0 invariant[scan] wfTryAll(v) ==> forall(k, len(v.istack) - $i, len(v.istack), v.istack[k].sc == v.istack[len(v.istack)-1].sc && !inTry(v.istack[k]))
+//@ loop 1 invariant[notry] wfTryAll(v) ==> forall(j, len(ictx.tryStack.elems) - $i, len(ictx.tryStack.elems), ehc(ictx.tryStack.elems[j]).State != eTry)
